@@ -49,6 +49,13 @@ CHECKS = {
         technique="deterministic simulation of emitted VHDL with seeded producer/consumer agents and stall/reset faults; per-clock comparison with queue/stack reference models + bounded liveness",
         ref="6/C14",
     ),
+    "C16": dict(
+        level="exploration",
+        text="Wrapper entities around std.wait_for / Waiter.wait_for (constant, run-time, Duration, zero with allow_zero), DelayLine / delayed, continuous_counter, ClockDivider and ToggleSignal (constant and run-time periods, first_state / default_state / tick_at_start / require_enable, enable / disable) and debounce (314 configurations) are compiled by the real compiler and run in VSIM; every output is compared with a per-step reference model after EVERY clock. Schedule and fault space: the instant a wait is reached, run-time values changing after they were sampled, enable/disable instants, bouncing inputs, resets mid-wait, stalls through the step condition (a stalled clock is not a step), process order, input offsets.",
+        note="Trusted: VSIM and the per-step models (written from the .pyi documentation, phase conventions calibrated on the unchanged tree). Preconditions (period >= 1) are kept by the stimulus.",
+        technique="deterministic simulation of emitted VHDL with seeded reach instants and stall/reset faults; per-clock comparison with cycle-exact reference models",
+        ref="6/C16",
+    ),
 }
 
 NOT_APPLICABLE = {
